@@ -12,6 +12,7 @@ import multiprocessing
 
 VP_HOME = os.environ.get('VP_HOME') or os.path.dirname(os.path.dirname(os.path.abspath(__file__)))
 VP_REPO = os.environ.get('VP_REPO', '/repo')
+STOP_EARLY = bool(os.environ.get('VP_STOP_EARLY'))     # tools/seedregress.sh: stop exploring at the first candidate violation
 NPROC = int(os.environ.get('VP_NPROC', '0')) or min(16, os.cpu_count() or 1)
 
 
@@ -294,6 +295,8 @@ def merge_all(fn, items, rep, procs=None, chunksize=1):
     """Run fn over items in the pool; every result is a Report merged into rep."""
     for r in pmap(fn, items, procs=procs, chunksize=chunksize):
         rep.merge(r)
+        if STOP_EARLY and rep.violations:
+            break           # development aid (seed regression): the first candidates are enough
     return rep
 
 
@@ -398,6 +401,8 @@ def bfs(expand_chunk, max_depth, rep, root=(), chunk=64, state_cap=None, on_leve
         ntrans = 0
         for r, children in pmap(expand_chunk, chunks(frontier, chunk)):
             rep.merge(r)
+            if STOP_EARLY and rep.violations:
+                break
             for h, k in children:
                 ntrans += 1
                 if k not in seen:
@@ -407,6 +412,8 @@ def bfs(expand_chunk, max_depth, rep, root=(), chunk=64, state_cap=None, on_leve
         levels.append({'depth': depth + 1, 'new_states': len(nxt), 'transitions': ntrans})
         if on_level:
             on_level(levels[-1])
+        if STOP_EARLY and rep.violations:
+            break
         if state_cap and len(seen) > state_cap:
             capped = True
             frontier = nxt
